@@ -89,4 +89,24 @@ def specByte (data : Nat → Nat → Nat) (cs : List Chunk) (p : Nat) : Nat :=
   | none => 0
   | some c => data c.fid (p - c.off)
 
+/-- judge of one bounded read window [offset, offset+size) of a file AFTER its chunks were converted into manifests
+    ("converting chunks into manifests never changes that content"): the read delivers exactly `size` bytes and byte i is a
+    legal content byte, at offset+i, of the ORIGINAL chunk list `cs` (newest covering chunk, 0 in a hole).  A manifest whose
+    advertised extent is narrower than its chunks passes every whole-file read but fails here: a window beyond the
+    advertised end skips the manifest and reads zeros / older data. -/
+def manifestWindowJudge (data : Nat → Nat → Nat) (cs : List Chunk) (offset size : Nat) (out : List Nat) : Option String :=
+  if out.length ≠ size then some "doMaybeManifestize/window-wrong-length"
+  else if (List.range size).all (fun i => byteOk data cs (offset + i) (out.getD i 999)) then none
+  else some "doMaybeManifestize/window-content-changed"
+
+/-- size of a file as the filer computes it from the top-level chunk list (TotalSize): the largest advertised end -/
+def advertisedSize : List Node → Nat
+  | [] => 0
+  | .data c :: ns => max (c.off + c.size) (advertisedSize ns)
+  | .manifest off size _ _ :: ns => max (off + size) (advertisedSize ns)
+
+/-- judge of TotalSize after doMaybeManifestize: the file keeps its size -/
+def manifestSizeJudge (before after : Nat) : Option String :=
+  if before = after then none else some "doMaybeManifestize/file-size-changed"
+
 end SwV.Spec.C17
